@@ -21,6 +21,7 @@ CONTRACT_DIR = os.path.join(VERIF, 'contracts')
 EVIDENCE_DIR = os.path.join(VERIF, 'evidence')
 REPLAY_DIR = os.path.join(EVIDENCE_DIR, 'replay')
 KNOWN = os.path.join(VERIF, 'known_findings.jsonl')
+INDEX = os.path.join(VERIF, 'contracts', 'index.json')
 REPLAY_PY = os.environ.get('PYVC_REPLAY_PYTHON', '/venv/bin/python')
 
 
@@ -65,6 +66,7 @@ def main(argv=None):
     ap.add_argument('--tier', default=os.environ.get('VERIF_TIER', 'quick'))
     ap.add_argument('--replay', default=None)
     ap.add_argument('--root', default=None)
+    ap.add_argument('--record', action='store_true', help='record the obligations proved now in contracts/index.json')
     ap.add_argument('--jobs', type=int, default=min(16, os.cpu_count() or 4))
     a = ap.parse_args(argv)
     prop = a.prop
@@ -101,10 +103,30 @@ def main(argv=None):
         traceback.print_exc()
         print(f'ERROR property={prop}: checker crashed')
         return 3
-    return report(prop, a.tier, seed, t0, results, scan_results, pinfo)
+    unit_recipes = {}
+    for t in targets:
+        c = contracts.by_target[t]
+        unit_recipes[t] = sorted({k.args[1].value for k in c.calls('replay')})
+    if a.record:
+        record_index(prop, results, scan_results)
+    return report(prop, a.tier, seed, t0, results, scan_results, pinfo, unit_recipes)
 
 
-def report(prop, tier, seed, t0, results, scan_results, pinfo):
+def load_index():
+    if os.path.exists(INDEX):
+        return json.load(open(INDEX))
+    return {}
+
+
+def record_index(prop, results, scan_results):
+    idx = load_index()
+    names = sorted({o['name'] for r in results for o in r['obligations'] if o['status'] == 'proved' and not o['expect_refuted']}
+                   | {s_['name'] for s_ in scan_results if s_['status'] == 'proved'})
+    idx[prop] = {'proved': names, 'units': sorted(r['target'] for r in results if r['status'] == 'ok')}
+    json.dump(idx, open(INDEX, 'w'), indent=1, sort_keys=True)
+
+
+def report(prop, tier, seed, t0, results, scan_results, pinfo, unit_recipes=None):
     known = [k for k in load_known() if k.get('property') == prop and k.get('status') == 'open']
     violations, undecided, errors, known_hits = [], [], [], []
     n_ob = n_proved = 0
@@ -166,6 +188,30 @@ def report(prop, tier, seed, t0, results, scan_results, pinfo):
         print(line)
         vio_lines.append(line)
         rc = 1
+    # DESIGN 5.1(b): an obligation that was proved on the recorded tree and is undecided now is a violation only if
+    # the replay search of its unit finds a concrete failing input on the real code
+    recorded = load_index().get(prop, {})
+    rec_units = set(recorded.get('units', []))
+    rec_proved = set(recorded.get('proved', []))
+    searched = set()
+    still_undecided = []
+    for r in results:
+        und_obs = [o for o in r['obligations'] if o['status'] == 'unknown' and not o['expect_refuted'] and o['name'] in rec_proved]
+        unit_und = r['status'] == 'undecided' and r['target'] in rec_units
+        if not (und_obs or unit_und) or r['target'] in searched:
+            continue
+        searched.add(r['target'])
+        why = r['message'] if unit_und else f"{und_obs[0]['name']}: solver unknown"
+        for recipe in (unit_recipes or {}).get(r['target'], []):
+            ob = {'name': f"{r['target']}::undecided", 'detail': f'proved on the recorded tree, undecided now ({why[:200]})', 'kind': 'undecided',
+                  'backend': '-', 'replay': recipe, 'counterexample': {'inputs': {}}}
+            path, reproduced, out = run_replay(prop, ob, tier)
+            if reproduced:
+                print(f"  unit {r['target']}: proved on the recorded tree, undecided now ({why[:160]}); the replay search '{recipe}' found a failing input on the real code")
+                print(f'VIOLATION property={prop} replay={path}')
+                rc = 1
+                violations.append(ob)
+                break
     for u in undecided:
         print(f'UNDECIDED property={prop}: {u}')
     for e in errors:
